@@ -6,7 +6,8 @@ From Robsd Require Import Inv.LsDefs Inv.LsSpec Inv.NameDefs Inv.NameSpec Inv.Pu
 From RobsdGen Require Import Gen_Util.
 Extraction Language OCaml.
 Extraction "iv_model.ml" ls_exec ls_main_exec ls_count running_builddir spec_ok_ls spec_ok_stdout spec_ok_stdout_named
-  build_id build_id_fixed build_id_current gen_build_id_current build_id_is_fixed build_init log_id attempts history gen_build_id gen_build_id_fixed
+  build_id build_id_fixed build_id_max build_id_current gen_build_id_current build_id_variant build_init log_id attempts history
+  gen_build_id gen_build_id_fixed gen_build_id_max
   spec_ok_build_id spec_ok_log_id spec_ok_kept
-  robsd_clean_exec effective_keep spec_ok_clean invocations_desc kept_of
+  robsd_clean_x_exec effective_keep spec_ok_clean spec_ok_clean_age invocations_desc kept_of
   new_invocation lock_acquire lstep attempt.
